@@ -865,6 +865,40 @@ def run(prog, rep, tier):
     if n1315 < 4:
         raise CheckerError("R13.15: only %d pieces found in the decorated printers" % n1315)
 
+    # ------------------------------------------------------------ R13.17 the zone of the datetime field never comes from --tz-offset
+    # cli_process_args returns two zones: the one zone-less log timestamps are *read* in (--tz-offset) and
+    # the one the prepended datetime is *printed* in (-u / -l / -z, default: the local zone).  The options
+    # are documented as independent; the printed zone must not derive from the clap field of --tz-offset
+    # (with `-d FMT -t +09:00` and no -u/-l/-z the field would silently switch to +09:00).
+    R1317 = rep.rule("R13.17", "the zone the datetime field is printed in does not derive from the --tz-offset option")
+    ca17 = prog.body("s4::cli_process_args")
+    rets17 = [st for bb in sorted(ca17.live) for st in ca17.stmts(bb) if st[0] == "=" and st[1] == [0] and st[2][0] == "agg" and st[2][1] == "tuple"]
+    if len(rets17) != 1:
+        raise CheckerError("R13.17: cli_process_args builds its result tuple at %d places" % len(rets17))
+    zones17 = []
+    for i_, o_ in enumerate(rets17[0][2][2]):
+        if o_[0] == "k" or "FixedOffset" not in (ca17.local_ty(o_[1][0]) or "") or "Option" in (ca17.local_ty(o_[1][0]) or ""):
+            continue
+        flds_ = set()
+        for x_ in ca17.origins(o_):
+            if x_[0] == "call" and x_[2].endswith("Parser::parse"):
+                flds_.add(next((p_ for p_ in reversed(x_[3]) if p_ not in ("*", "&") and not p_.startswith("as ") and not p_.isdigit()), "?"))
+            elif x_[0] == "call":
+                flds_.add("<" + x_[2].split("::")[-1] + ">")
+            else:
+                flds_.add("<" + x_[0] + ">")
+        zones17.append((i_, flds_))
+    rep.examined(R1317, ca17.path + "|zones", sample={"zone_elements_of_the_result": [(i_, sorted(f_)) for i_, f_ in zones17]})
+    read17 = [z_ for z_ in zones17 if z_[1] == {"tz_offset"}]
+    if len(zones17) != 2 or len(read17) != 1:
+        raise CheckerError("R13.17: expected two FixedOffset results of cli_process_args, one of them exactly args.tz_offset; found %s" % [(i_, sorted(f_)) for i_, f_ in zones17])
+    for (i_, flds_) in zones17:
+        if (i_, flds_) is read17[0] or flds_ == {"tz_offset"}:
+            continue
+        if "tz_offset" in flds_:
+            rep.violation(R1317, ca17.path + "|prepend-zone|from-tz-offset", "cli_process_args: the zone in which the prepended datetime is printed (result element %d) can take the value of --tz-offset (derived from clap fields %s); "
+                          "the two options are independent: without -u/-l/-z the field is printed in the local zone, whatever zone the log lines are read in" % (i_, sorted(flds_)))
+
     # ------------------------------------------------------------ R13.16 no two same-typed arguments change places on the way to the callee
     # The options reach the workers and the printers as long positional argument lists in which several
     # parameters share a type (two FixedOffsets: the zone log lines are read in, the zone datetimes are
